@@ -19,13 +19,13 @@ Print Assumptions C06_place_total.
    filter and of At() is bound (or is $$), and every variable the Report/Suggest templates interpolate is bound *)
 Theorem C06_accepted_rule_bound :
   forall r, gen_validate r = true -> well_bound r.
-Proof. exact (accepted_rule_bound gen_num_buckets gen_place_cases gen_kind_names gen_object_names gen_tag_names). Qed.
+Proof. exact (accepted_rule_bound gen_num_buckets gen_place_cases gen_kind_names gen_object_names gen_tag_names gen_swap_guard). Qed.
 Print Assumptions C06_accepted_rule_bound.
 
 Theorem C06_accepted_rule_placed :
   forall r a, gen_validate r = true -> v_comment r = false -> In a (v_alts r) ->
   exists l, place_of gen_place_cases (a_tag a) = PTags l /\ l <> [] /\ forall t, In t l -> (t < gen_num_buckets)%N.
-Proof. exact (accepted_rule_placed gen_num_buckets gen_place_cases gen_kind_names gen_object_names gen_tag_names). Qed.
+Proof. exact (accepted_rule_placed gen_num_buckets gen_place_cases gen_kind_names gen_object_names gen_tag_names gen_swap_guard). Qed.
 Print Assumptions C06_accepted_rule_placed.
 
 Theorem C06_interpolated_names_are_pattern_variables :
@@ -50,7 +50,33 @@ Theorem C06_errors_located_sites : gen_unlocated_error_sites =
 Proof. exact errors_located_sites. Qed.
 Print Assumptions C06_errors_located_sites.
 
+(* binary_filter_terminates: for all comparisons, newBinaryExprFilter (its regenerated swap guard) calls itself at most once --
+   Load cannot overflow the stack there -- and an accepted comparison has a variable property on the left and a constant or the
+   same property on the right *)
+Theorem C06_binary_filter_terminates :
+  forall fuel eqop l r, binary_norm gen_swap_guard (2 + fuel) eqop l r = binary_norm gen_swap_guard 2 eqop l r /\
+                        binary_norm gen_swap_guard 2 eqop l r <> None.
+Proof. exact (binary_norm_terminates gen_swap_guard swap_guard_flips). Qed.
+Print Assumptions C06_binary_filter_terminates.
+
+Theorem C06_binary_filter_shape :
+  forall eqop l r, binary_ok gen_swap_guard eqop l r = true ->
+  exists l' r', binary_norm gen_swap_guard 2 eqop l r = Some (l', r') /\ is_lit l' = false /\ (is_lit r' = true \/ r' = l').
+Proof. exact (binary_ok_shape gen_swap_guard). Qed.
+Print Assumptions C06_binary_filter_shape.
+
+Theorem C06_loader_panic_sites : gen_loader_panic_sites =
+  ["loadRuleGroup: panic(fmt.Sprintf(""duplicated function %s after the typecheck"", l.group.Name))";
+   "compile: panic(rv)";
+   "internConstant: panic(""compiler error: int constant interned as interface{}"")"].
+Proof. exact loader_panic_sites. Qed.
+Print Assumptions C06_loader_panic_sites.
+
 (* non-vacuity: rules that are accepted / rejected for each reason *)
+Example ex_binary : map (fun x => gen_validate (mkVRule false [mkAlt true 4 ["x"; "y"]] [mkAtom ["x"] x] None ["m"]))
+    [ChkBinary true OLit OSize; ChkBinary false OLit OSize; ChkBinary true OLit OLit; ChkBinary true OText OText; ChkBinary true OLine OSize; ChkBinary false OValueInt OLit]
+  = [true; false; false; true; false; true].
+Proof. vm_compute. reflexivity. Qed.
 Example ex_accept : gen_validate (mkVRule false [mkAlt true 4 ["x"; "y"]; mkAlt true 4 ["x"; "y"; "z"]]
     [mkAtom ["x"] (ChkKind "integer"); mkAtom ["$$"] ChkNone; mkAtom [] (ChkVersion "1.16")] (Some "y") ["$x and $$ cost $5"; "$y"]) = true.
 Proof. vm_compute. reflexivity. Qed.
